@@ -38,7 +38,8 @@ ENTRY = ["Grid2D.from_mask", "derive_grid.all_false", "derive_grid.unmasked", "d
          "Imaging.trimmed_after_convolution_from", "SimulatorImaging.via_image_from", "preprocess.noise_map_with_signal_to_noise_limit_from",
          "geometry.pixel_coordinates_2d_from", "geometry.grid_pixel_indexes_2d_from", "MapperRectangular", "MapperDelaunay",
          "BorderRelocator.relocated_grid_from", "derive_mask.origins", "ImageMesh.mesh_pixels_per_image_pixels_from",
-         "OverSamplingUniform(shared scheme)", "OverSamplingUniform.from_radial_bins"]
+         "OverSamplingUniform(shared scheme)", "OverSamplingUniform.from_radial_bins",
+         "geometry.scaled_coordinate_2d_to_scaled_at_pixel_centre_from", "OverSamplingUniform.from_adaptive_scheme"]
 MIN_MONITORS = {"*": dict({"covariance:" + e: 1 for e in ENTRY}, **{"covariance:Hilbert.image_plane_mesh_grid_from": 1})}
 
 
@@ -317,6 +318,28 @@ def world(ctx, rng_seed, m, ps, origin, kshape, shared=None):
         sc = _np(mask.geometry.scaled_coordinates_2d_from(pixel_coordinates_2d=(int(r.integers(H)), int(r.integers(W)))))
         ob.coord("geometry.pixel_coordinates_2d_from", "scaled_coordinates_2d_from", np.array(sc, float))
     run("geometry.pixel_coordinates_2d_from", indexes)
+
+    def snapped():
+        # a coordinate snapped to the centre of the pixel that contains it (used to anchor the adaptive over sampling of a profile):
+        # translates with the frame; the adaptive sub-size map about a correspondingly translated profile centre is unchanged
+        ks = [int(k_) for k_ in r.choice(len(pts_rel), size=min(4, len(pts_rel)), replace=False)]
+        got = np.array([mask.geometry.scaled_coordinate_2d_to_scaled_at_pixel_centre_from(scaled_coordinate_2d=tuple(o + pts_rel[k_])) for k_ in ks], dtype=float)
+        ob.coord("geometry.scaled_coordinate_2d_to_scaled_at_pixel_centre_from", "snapped_to_pixel_centre", got)
+        tol_ = 1e-9 * max(max(ps), float(np.abs(o).max()), 1.0)
+        ctx.check(bool(np.all(np.abs(got - (o + cen[ks])) <= tol_)), "covariance:geometry.scaled_coordinate_2d_to_scaled_at_pixel_centre_from",
+                  result="snapped_to_pixel_centre", kind="centre of the containing pixel", expected=o + cen[ks], got=got, mask=m, origin=o, scales=ps)
+        gu = aa.Grid2D.from_mask(mask=mask)
+        k0 = ks[0]
+        dist = np.hypot(*(_refmod.slim_centres(m, ps, (0.0, 0.0)) - cen[k0]).T)
+        for name_ in ("VerifC09Adapt", "VerifC09Adapt2"):
+            rl = {"VerifC09Adapt": [1.01, 2.51], "VerifC09Adapt2": [2.01]}[name_]
+            if any(np.any(np.abs(dist - f_ * min(ps)) < 1e-6 * min(ps)) for f_ in rl):
+                ob.ties.add("OverSamplingUniform.from_adaptive_scheme")
+            osu = aa.OverSamplingUniform.from_adaptive_scheme(grid=gu, name=name_, centre=tuple(o + pts_rel[k0]))
+            ob.inv("OverSamplingUniform.from_adaptive_scheme", "adaptive_scheme.sub_size." + name_, np.asarray(_np(osu.sub_size)).astype(np.int64))
+    run("geometry.scaled_coordinate_2d_to_scaled_at_pixel_centre_from", snapped)
+    ob.errors.setdefault("OverSamplingUniform.from_adaptive_scheme", ob.errors.get("geometry.scaled_coordinate_2d_to_scaled_at_pixel_centre_from")) \
+        if "geometry.scaled_coordinate_2d_to_scaled_at_pixel_centre_from" in ob.errors else None
     ob.errors.setdefault("geometry.grid_pixel_indexes_2d_from", ob.errors.get("geometry.pixel_coordinates_2d_from")) if "geometry.pixel_coordinates_2d_from" in ob.errors else None
 
     # ---- mappers on translated grids
